@@ -52,3 +52,7 @@ package actionlint
 //@ nonnil_elems ActionMetadataInputs
 //@ nonnil_elems ReusableWorkflowMetadataInputs
 //@ nonnil_elems ReusableWorkflowMetadataSecrets
+
+// C01 / C14: the declared type of a reusable-workflow input is never nil ("unknown" is AnyType): checked at
+// every store to the field and, for an object filled by the YAML decoder, where it is put into the map
+//@ nonnil ReusableWorkflowMetadataInput.Type also C14
